@@ -279,6 +279,8 @@ def l3_task(case):
     out["witness"] = br["inv_witness"]
     out["probe_witness"] = br["probe_witness"]
     h = L.run_halmos(case, timeout=150, instrument=True)
+    if h.get("timeout"):  # a loaded machine: one retry with a long limit before calling it a failure
+        h = L.run_halmos(case, timeout=420, instrument=True)
     out["halmos"] = {k: h.get(k) for k in ("exitcode", "statuses", "paths", "cexs", "warnings", "timeout")}
     out["trace"] = h.get("trace")
     out["stdout_tail"] = (h.get("stdout") or "")[-1500:] + (h.get("stderr") or "")[-600:]
@@ -449,7 +451,7 @@ def fmt_seq(w):
 
 
 QUICK_CORPUS = {
-    "counter-lt2-d1", "counter-lt2-d2", "counter-lt3-d3", "steps-d2", "toggle-then-step", "two-slots", "arg-set",
+    "counter-lt3-d0", "counter-lt2-d1", "counter-lt2-d2", "counter-lt3-d3", "steps-d2", "toggle-then-step", "two-slots", "arg-set",
     "exclude-contract", "exclude-but-selector-targeted", "target-selector-only-dec", "target-overrides-exclude-selector",
     "sender-excluded", "sender-targeted", "sender-target-minus-excluded", "not-sender-targeted2",
     "test-contract-not-targeted", "test-contract-selector-targeted",
@@ -464,7 +466,7 @@ def gen_l3_cases(tier, r):
     if tier == "quick":
         cases = [c for c in cases if c["name"] in QUICK_CORPUS]
     n0 = len(cases)
-    n = 2 if tier == "quick" else 120
+    n = 2 if tier == "quick" else 100
     i = 0
     while len(cases) < n0 + n:
         c = B.gen_case(r, i)
@@ -494,7 +496,7 @@ def run(rep, tier):
     if os.environ.get("C15_ONLY"):  # development aid: restrict the L3 cases by name
         cases = [c for c in cases if c["name"] in os.environ["C15_ONLY"].split(",")]
     t_l3 = time.time()
-    res = pool.run_tasks(l3_task, cases, timeout=240 if tier == "quick" else 400, workers=min(16, os.cpu_count() or 4))
+    res = pool.run_tasks(l3_task, cases, timeout=700, workers=min(16, os.cpu_count() or 4))
     for case, (st, out) in zip(cases, res):
         if st != "ok":
             rep.fail("broken-tie", f"L3 case {case['name']}: worker {st}: {str(out)[-500:]}", case={"tie": "l3", "case": case})
